@@ -551,6 +551,8 @@ MUTANTS = [
     Mutant("finish-fires-errback", HTTP, "            d.callback(None)", "            d.errback(None)"),
 ]
 SILENT = [
+    Silent("400-reached-through-a-class-level-table-of-functions", HTTP, '    def _maybeChooseTransferDecoder(self, header, data):\n',
+           '    _onFramingError = {"reject": _failChooseTransferDecoder}\n\n    def _maybeChooseTransferDecoder(self, header, data):\n', more=[(HTTP, '            if not data.isdigit():\n                return self._failChooseTransferDecoder()\n', '            if not data.isdigit():\n                return self._onFramingError["reject"](self)\n')]),
     Silent("notifications-fired-by-shared-helper-in-place", HTTP, "        for d in self.notifications:\n            d.callback(None)\n        self.notifications = []",
            "        self._settle(lambda d: d.callback(None))",
            more=[(HTTP, "        for d in self.notifications:\n            d.errback(reason)\n        self.notifications = []", "        self._settle(lambda d: d.errback(reason))"),
